@@ -264,6 +264,8 @@ def run_step(seed=0, tier="quick"):
             r = impl.rng(seed, "step2d", ci)
             lo = max(2 * w + 1, 6)
             ny, nx = int(r.integers(lo, lo + 4)), int(r.integers(lo, lo + 4))
+            if nx % 2 == ci % 2:
+                nx += 1                 # odd and even cell counts along x alternate (prefactors formed from integer cell counts)
             if ny == nx:
                 ny += 1
             sim = sps.UnboundedNavierStokesFlowSimulator2D(
